@@ -44,8 +44,9 @@ def gen_standardiser(repo):
 def gen_controllers(repo):
     """LinearController.regulate and RelativeSupplyController.regulate (state = the target pool)"""
     out = ["(* GENERATED on every run by py2coq from src/cobald/controller/{linear,relative_supply}.py -- do not edit *)",
-           "From Coq Require Import ZArith QArith Bool.",
-           "From Cobald Require Import kit.QKit model.Controllers.",
+           "From Coq Require Import ZArith QArith Bool List.",
+           "From Cobald Require Import kit.QKit model.Controllers kit.SelectIR.",
+           "Import ListNotations.",
            "Open Scope Q_scope.", ""]
     for fname, cls, rec, coq, fields in (
             ("linear.py", "LinearController", "linear", "gen_linear_regulate",
@@ -61,7 +62,101 @@ def gen_controllers(repo):
         reads.update(fields)
         u = QUnit(reads=reads, writes={"self.target.demand": "set_demand"}, funcs={}, state_type="pool")
         out.append(u.function(find_function(tree, "regulate", cls=cls), coq, "setter", True, extra_params="(c : %s)" % rec))
+    out.append(gen_selectors(repo))
     return "\n".join(out)
+
+
+def gen_selectors(repo):
+    """the selection conditions of RangeSelector.get_rule and DemandSwitch.regulate as `schain` (kit/SelectIR.v); the loops
+    around them are matched exactly"""
+    REL = {ast.Lt: "RLt", ast.LtE: "RLe", ast.Gt: "RGt", ast.GtE: "RGe"}
+
+    def src(e):
+        return ast.unparse(e).replace(" ", "")
+
+    def fail(what, node=None):
+        raise TranslationError("selectors: %s%s" % (what, " (line %d)" % node.lineno if node is not None and hasattr(node, "lineno") else ""))
+
+    def body_of(fn):
+        b = list(fn.body)
+        if b and isinstance(b[0], ast.Expr) and isinstance(b[0].value, ast.Constant) and isinstance(b[0].value.value, str):
+            b = b[1:]
+        return b
+
+    def chain(e, names):
+        if not isinstance(e, ast.Compare):
+            fail("expected a comparison, got %s" % src(e), e)
+        vals = []
+        for x in [e.left] + list(e.comparators):
+            t = src(x)
+            if t not in names:
+                fail("unsupported operand %s" % t, x)
+            vals.append(names[t])
+        rels = []
+        for o in e.ops:
+            if type(o) not in REL:
+                fail("unsupported comparison operator", e)
+            rels.append(REL[type(o)])
+        return "(%s, [%s])" % (vals[0], "; ".join("(%s, %s)" % (r, v) for r, v in zip(rels, vals[1:])))
+
+    out = []
+    # ---- stepwise.py: RangeSelector.get_rule
+    with open(os.path.join(repo, "src", "cobald", "controller", "stepwise.py")) as fh:
+        tree = ast.parse(fh.read())
+    fn = find_function(tree, "get_rule", cls="RangeSelector")
+    if [a.arg for a in fn.args.args] != ["self", "supply"] or fn.args.vararg or fn.args.kwarg or fn.args.kwonlyargs or fn.args.defaults:
+        fail("get_rule(self, supply)", fn)
+    b = body_of(fn)
+    ok = (len(b) == 1 and isinstance(b[0], ast.For) and not b[0].orelse and src(b[0].iter) == "self._lookup.items()"
+          and isinstance(b[0].target, ast.Tuple) and len(b[0].target.elts) == 2 and isinstance(b[0].target.elts[0], ast.Tuple)
+          and len(b[0].target.elts[0].elts) == 2 and all(isinstance(x, ast.Name) for x in b[0].target.elts[0].elts)
+          and isinstance(b[0].target.elts[1], ast.Name) and len(b[0].body) == 1)
+    if not ok:
+        fail("get_rule: for (low, high), rule in self._lookup.items(): <one statement>", fn)
+    lo, hi = (x.id for x in b[0].target.elts[0].elts)
+    rule = b[0].target.elts[1].id
+    i = b[0].body[0]
+    if not (isinstance(i, ast.If) and not i.orelse and len(i.body) == 1 and isinstance(i.body[0], ast.Return) and src(i.body[0].value) == rule):
+        fail("get_rule: if <chain>: return rule", i)
+    out.append("Definition gen_get_rule_chain : schain := %s." % chain(i.test, {lo: "SBound1", hi: "SBound2", "supply": "SInput"}))
+    # the lookup is a dict filled in ascending order of the thresholds: (low, high) -> rule
+    fn = find_function(tree, "run", cls="Stepwise")
+    b = body_of(fn)
+    want = ["target,interval=(self.target,self.interval)", None]
+    ok = (len(b) == 2 and src(b[0]) in ("target,interval=(self.target,self.interval)", "target,interval=self.target,self.interval")
+          and isinstance(b[1], ast.While) and src(b[1].test) == "True" and not b[1].orelse and len(b[1].body) == 4)
+    if not ok:
+        fail("Stepwise.run: locals, then `while True:` with four statements", fn)
+    w = b[1].body
+    ok = (src(w[0]) == "current_rule=self._selector.get_rule(target.supply)" and src(w[1]) == "demand=current_rule(target,interval)"
+          and isinstance(w[2], ast.If) and not w[2].orelse and src(w[2].test) == "demandisnotNone" and len(w[2].body) == 1
+          and src(w[2].body[0]) == "self.target.demand=demand" and src(w[3]) == "awaittrio.sleep(interval)")
+    if not ok:
+        fail("Stepwise.run: select by target.supply, call the rule, write unless None, sleep", fn)
+    # ---- switch.py: DemandSwitch.regulate
+    with open(os.path.join(repo, "src", "cobald", "controller", "switch.py")) as fh:
+        tree = ast.parse(fh.read())
+    fn = find_function(tree, "regulate", cls="DemandSwitch")
+    if [a.arg for a in fn.args.args] != ["self", "interval"] or fn.args.vararg or fn.args.kwarg or fn.args.kwonlyargs or fn.args.defaults:
+        fail("regulate(self, interval)", fn)
+    b = body_of(fn)
+    ok = (len(b) == 3 and src(b[0]) == "chosen=self._default" and isinstance(b[1], ast.For) and not b[1].orelse
+          and src(b[1].iter) == "self._slaves" and isinstance(b[1].target, ast.Tuple) and len(b[1].target.elts) == 2
+          and all(isinstance(x, ast.Name) for x in b[1].target.elts) and len(b[1].body) == 1 and src(b[2]) == "chosen.regulate(interval)")
+    if not ok:
+        fail("regulate: chosen = self._default; for demand, slave in self._slaves: ...; chosen.regulate(interval)", fn)
+    th, sl = (x.id for x in b[1].target.elts)
+    i = b[1].body[0]
+    if not (isinstance(i, ast.If) and not i.orelse and len(i.body) == 1 and src(i.body[0]) == "chosen=%s" % sl):
+        fail("regulate: if <chain>: chosen = slave", i)
+    out.append("Definition gen_choose_chain : schain := %s." % chain(i.test, {th: "SBound1", "self.target.demand": "SInput"}))
+    fn = find_function(tree, "run", cls="DemandSwitch")
+    b = body_of(fn)
+    ok = (len(b) == 1 and isinstance(b[0], ast.While) and src(b[0].test) == "True" and not b[0].orelse
+          and [src(x) for x in b[0].body] == ["self.regulate(self.interval)", "awaittrio.sleep(self.interval)"])
+    if not ok:
+        fail("DemandSwitch.run: while True: self.regulate(self.interval); await trio.sleep(self.interval)", fn)
+    return "\n".join(out) + "\n"
 
 
 def gen_guard(repo):
